@@ -302,6 +302,8 @@ pub fn fanout_start(n: u16, raw: u8, align: u8) -> u8 {
         1 => 0,
         2 => (128u16.wrapping_sub(n) & 0xFF) as u8,
         3 => 128,
+        // the run starts at 'A': with 33 or more children it spans both cases of a letter
+        4 => b'A',
         _ => raw,
     }
 }
@@ -609,7 +611,7 @@ pub fn realize_patterns(list: &PatList, alpha: &[u8]) -> Vec<Vec<u8>> {
         }
         PatList::Fanout { prefix, n, start, tails } => {
             let prefix = map_bytes(alpha, prefix);
-            (0..*n as usize)
+            let mut out: Vec<Vec<u8>> = (0..*n as usize)
                 .map(|i| {
                     let mut p = prefix.clone();
                     p.push(start.wrapping_add(i as u8));
@@ -621,7 +623,15 @@ pub fn realize_patterns(list: &PatList, alpha: &[u8]) -> Vec<Vec<u8>> {
                     }
                     p
                 })
-                .collect()
+                .collect();
+            // half of the lists: two of the child bytes are patterns of their
+            // own (suffixes of the fan-out patterns: inherited matches below a
+            // wide node)
+            if tails.len() >= 2 && tails[1] & 1 == 1 && !prefix.is_empty() {
+                out.push(vec![start.wrapping_add((*n / 2) as u8)]);
+                out.push(vec![start.wrapping_add((*n - 1) as u8)]);
+            }
+            out
         }
         PatList::Adversarial { kind, k, n } => {
             let (k, n) = (*k as usize, *n as usize);
